@@ -24,6 +24,12 @@ jittered frames, removed backbone atoms, inserted ion / water / cap residues, ex
 reference applied to md.kabsch_sander(traj) + CA coordinates == md.compute_dssp(traj, simplified=False);
 simplified image; 'NA' exactly on incomplete residues; shape; per-frame independence; pattern used by dssp()
 == pattern reported by md.kabsch_sander.
+
+Layer 3 (histories, one process): on 1vii, 1bpi, 2EQQ, for residues r in {helix interior, strand, termini, turn, ..} and
+one backbone atom (O->OX, N->NX, CA->CX, C->CX, C-terminal O->OT1): [analyse; rename the atom IN PLACE; analyse; analyse a
+copy of the topology; rename back; analyse; analyse a copy] and the repair direction [first analysis with the atom already
+misnamed; rename to the backbone name in place; analyse; analyse a copy]; every analysis is the full layer-2 assertion set
+(simplified False and True, kabsch_sander), the reference reading the atom names of the topology at that moment.
 """
 import ctypes
 import hashlib
@@ -48,7 +54,9 @@ MANIFEST = {
             "compared exactly per residue. End to end: 11 files of tests/data, one constructed structure, and deterministic variants (perturbed frames, removed "
             "backbone atoms, inserted non-protein residues, extra chain boundaries): reference(md.kabsch_sander pattern, CA) == "
             "compute_dssp(simplified=False), simplified = 3-letter image, 'NA' exactly on incomplete residues, shape, "
-            "per-frame independence. Right level: the property is a statement about a discrete rule system on H-bond "
+            "per-frame independence. Histories in one process on 3 files: analyse / rename one backbone atom of residue r in place / "
+            "analyse / analyse a copy / rename back / analyse / copy, plus the repair direction, each judged against the topology as it "
+            "is at that moment (no state may survive between calls). Right level: the property is a statement about a discrete rule system on H-bond "
             "patterns; the pattern space, not the space of 3-D structures, can be enumerated completely.",
     "note": "Conventions taken from the DSSP program where the paper is silent (counted per run): minimal G/I helices are "
             "all-or-nothing, pi overrides alpha (property text), E over B, parallel before antiparallel, chain break = chain "
@@ -1030,6 +1038,11 @@ def run(ctx):
                 "informational_reference_vs_stored_mkdssp221": {
                     "frames": sum(s["mkdssp_frames"] for s in e2e), "residues": sum(s["mkdssp_residues"] for s in e2e),
                     "residues_differing": sum(s["mkdssp_differ"] for s in e2e)}},
+        "history": {"files": [s["file"] for s in e2e if "histories" in s],
+                    "histories": sum(s.get("histories", 0) for s in e2e),
+                    "analyses": sum(s.get("history_steps", 0) for s in e2e),
+                    "completeness_transitions_in_place": sum(s.get("na_transitions", 0) for s in e2e),
+                    "renames": ["%s->%s" % r for r in RENAMES]},
         "max_err_over_tol": 0.0,
     }
     return "exploration", cov
